@@ -70,6 +70,37 @@ def reference_row(i, N, p, boundary):
     return {j: w for j, w in row.items() if w != 0}
 
 
+def reference_reach(i, N, p, boundary):
+    """Set of column indices the documented stencil of output point i reads
+    (non-zero weight before wrapped / mirrored samples are added up)."""
+    m = p // 2
+    reach = set()
+    if boundary in ('periodic', 'symmetric'):
+        offs = centered(p)
+    elif i < m:
+        offs = tuple(range(0, p + 1))
+    elif i >= N - m:
+        offs = tuple(range(-p, 1))
+    else:
+        offs = centered(p)
+    for o, w in zip(offs, weights(offs)):
+        if w == 0:
+            continue
+        j = i + o
+        if boundary == 'periodic':
+            j %= N
+        elif boundary == 'symmetric':
+            for _ in range(8):
+                if j < 0:
+                    j = -j
+                elif j > N - 1:
+                    j = 2 * (N - 1) - j
+                else:
+                    break
+        reach.add(j)
+    return reach
+
+
 def selftest():
     F = Fraction
     assert weights((-1, 0, 1)) == (F(-1, 2), F(0), F(1, 2))
